@@ -258,7 +258,7 @@ var Faults = []string{
 	"dup-inherited-property", "dup-inherited-property-beside-allof", "circular-ancestry-direct", "circular-ancestry-indirect", "circular-ancestry-pure-ref-cycle", "circular-ancestry-self-inheriting-ancestor",
 	"overlapping-paths", "invalid-pattern-param", "invalid-pattern-header", "invalid-pattern-schema", "invalid-pattern-items",
 	"missing-paths", "empty-placeholder",
-	"array-no-items-referenced-response-typelist", "two-body-params-go-name-collision",
+	"array-no-items-referenced-response-typelist", "two-body-params-go-name-collision", "dup-param-path-item-level",
 	// shapes which the Swagger meta-schema pre-checks let through, so that only the rule itself can report them
 	"array-empty-items-header-among-responses", "array-typelist-no-items-response-schema-among-responses",
 	"array-empty-items-param", "array-empty-nested-items-param", "array-empty-nested-items-header",
@@ -369,6 +369,13 @@ func (g *SpecGen) Apply(fault string) (applied bool, strictOnly bool) {
 	case "dup-param-inline":
 		o := g.anyOp()
 		o.op["parameters"] = append(g.params(o.op), map[string]any{"name": "dup", "in": "query", "type": "string"}, map[string]any{"name": "dup", "in": "query", "type": "integer"})
+		return true, false
+	case "dup-param-path-item-level":
+		// the same name + location twice among the parameters of a PATH ITEM (shared by its operations)
+		o := g.anyOp()
+		item := paths[o.path].(map[string]any)
+		pp, _ := item["parameters"].([]any)
+		item["parameters"] = append(pp, map[string]any{"name": "pdup", "in": "query", "type": "string"}, map[string]any{"name": "pdup", "in": "query", "type": "integer"})
 		return true, false
 	case "dup-param-via-ref":
 		o := g.anyOp()
@@ -741,6 +748,43 @@ func (g *SpecGen) ApplyMulti() []string {
 			paths[fmt.Sprintf("/np%d%s", i, g.Tag)] = map[string]any{"get": map[string]any{"operationId": fmt.Sprintf("np%d%s", i, g.Tag), "responses": map[string]any{"200": resp}}}
 		}
 		what = append(what, "bad-response-defaults-in-parameterless-operations")
+	}
+	if g.R.P(0.4) {
+		// a query parameter whose default its own type rejects, in one or two operations
+		for i, o := range g.ops {
+			if i < 2 && g.R.P(0.7) {
+				o.op["parameters"] = append(g.params(o.op), map[string]any{"name": "bdq", "in": "query", "type": "integer", "default": "ten"})
+			}
+		}
+		what = append(what, "bad-parameter-default")
+	}
+	if g.R.P(0.3) {
+		// a reference to a file which does not exist (not even a valid URI for the reference pass: the document is
+		// never expanded)
+		defs["FileRef"+g.Tag] = map[string]any{"type": "object", "properties": map[string]any{"other": map[string]any{"$ref": "no-such-file.json#/definitions/other"}}}
+		what = append(what, "missing-file-ref")
+	}
+	if g.R.P(0.4) {
+		// a child redeclaring SEVERAL inherited properties (one message lists them all)
+		base := "Wide" + g.Tag
+		names := []string{"alpha", "beta", "gamma", "delta", "eps"}[:g.R.Range(2, 5)]
+		bp, cp := map[string]any{}, map[string]any{}
+		for _, n := range names {
+			bp[n], cp[n] = map[string]any{"type": "string"}, map[string]any{"type": "string"}
+		}
+		defs[base] = map[string]any{"type": "object", "properties": bp}
+		defs["WideKid"+g.Tag] = map[string]any{"allOf": []any{map[string]any{"$ref": "#/definitions/" + base}, map[string]any{"type": "object", "properties": cp}}}
+		what = append(what, fmt.Sprintf("child-redeclares-%d-inherited-properties", len(names)))
+	}
+	if g.R.P(0.4) {
+		// three or four paths which overlap under one method (strict path uniqueness reports pairs)
+		paths := g.Doc["paths"].(map[string]any)
+		for i, pn := range []string{"x", "y", "z", "w"}[:g.R.Range(3, 4)] {
+			paths[fmt.Sprintf("/ov%s/{%s}", g.Tag, pn)] = map[string]any{"get": map[string]any{"operationId": fmt.Sprintf("ov%d%s", i, g.Tag),
+				"parameters": []any{map[string]any{"name": pn, "in": "path", "required": true, "type": "string"}},
+				"responses":  map[string]any{"200": map[string]any{"description": "ok"}}}}
+		}
+		what = append(what, "several-overlapping-paths")
 	}
 	if g.R.P(0.4) {
 		for _, f := range []string{"dup-operation-id", "dup-param-inline", "path-param-extra", "invalid-pattern-param"} {
